@@ -547,7 +547,12 @@ func c20Expected(d *c20Doc) c20Spec {
 				civil := ed.day() > c20AddYears(eb, 100)
 				diff := new(big.Rat).Sub(c20YearsFrac(ed), c20YearsFrac(eb))
 				scale := diff.Cmp(big.NewRat(100, 1)) > 0
-				if civil != scale {
+				// exactly 100 on the Years scale: float64 decides it by its last bit unless both values are
+				// computed exactly (2 Jul of a non-leap year = year + 0.5)
+				half := func(x c20Date) bool { return c20YearsFrac(x).Cmp(big.NewRat(int64(2*x.Y+1), 2)) == 0 }
+				if diff.Cmp(big.NewRat(100, 1)) == 0 && !(half(ed) && half(eb)) {
+					s.Unclear[key] = true
+				} else if civil != scale {
 					s.Unclear[key] = true
 				} else if civil {
 					s.Want[key]++
@@ -1356,8 +1361,116 @@ func c20Run(c *Ctx, d *c20Doc, labels map[string]int, style string, permute bool
 	c.Sample(map[string]interface{}{"gedcom_lines": strings.Count(text, "\n"), "warnings": obs.Line})
 }
 
+// c20Compare: the model's answer may end in ` ~ flag;flag…`: decisions that rest on an exact tie of two
+// Years() values which float64 computes along different paths (Gedcom/Model/WarningsTies.lean). Exactly
+// those decisions are inconclusive: the flagged warnings are taken out of both answers, everything
+// else is compared as it is, in order.
+func c20Compare(c *Ctx) func(req, impl, model string) bool {
+	return func(req, impl, model string) bool {
+		parts := strings.SplitN(model, " ~ ", 2)
+		if len(parts) == 1 {
+			return impl == model
+		}
+		flags := map[string]bool{}
+		for _, f := range strings.Split(parts[1], ";") {
+			flags[f] = true
+		}
+		drop := func(line string) []string {
+			var out []string
+			if line == "-" {
+				return out
+			}
+			for _, tok := range strings.Split(line, ";") {
+				w := strings.Fields(tok)
+				key := ""
+				switch {
+				case len(w) == 4 && w[0] == "CBBP":
+					key = "CBBP " + w[2] + " " + w[3]
+				case len(w) == 2 && w[0] == "OLD":
+					key = tok
+				case len(w) == 4 && w[0] == "MOOR":
+					key = "MOOR " + w[1] + " " + w[2]
+				}
+				if key == "" || !flags[key] {
+					out = append(out, tok)
+				}
+			}
+			return out
+		}
+		a, b := drop(impl), drop(parts[0])
+		c.Count("float-tie-inconclusive")
+		if impl != parts[0] {
+			c.Count("float-tie-inconclusive-and-different")
+		}
+		if len(a) != len(b) {
+			return false
+		}
+		for i := range a {
+			if a[i] != b[i] {
+				return false
+			}
+		}
+		return true
+	}
+}
+
+// c20TieDoc: people whose dates tie exactly on the Years() scale across granularities: the 16th of a
+// 31-day month (15 Feb of a leap year) against that month, 2 Jul of a non-leap year against that year,
+// as child / parent births, as two dates of one birth, and exactly 100 years apart.
+func c20TieDoc(r *Rand) *c20Doc {
+	mon31 := []int{1, 3, 5, 7, 8, 10, 12}
+	gen := func(text string) c20Date { return c20Date{General: true, Text: text} }
+	day := func(y, m, d int) c20Date { return c20OK(r, c20DayOf(y, m, d)) }
+	ev := func(kind string, ds ...c20Date) c20Ev { return c20Ev{Kind: kind, Tag: kind, Dates: ds} }
+	monthOf := func(y, m int) c20Date { return gen(fmt.Sprintf("%s %d", c20MonthForms[m-1][r.Intn(4)], y)) }
+	d := &c20Doc{}
+	indi := func(ptr int, sex string, evs ...c20Ev) {
+		i := &c20Indi{Ptr: ptr, Sexes: []string{sex}, Events: evs}
+		i.merge = c20Merge(r, 1, len(evs))
+		d.Recs = append(d.Recs, c20Rec{I: i})
+	}
+	fam := func(ptr, husb, wife int, chil []int, evs ...c20Ev) {
+		f := &c20Fam{Ptr: ptr, Husb: husb, Wife: wife, Chil: chil, Events: evs}
+		f.merge = c20Merge(r, len(chil), len(evs))
+		d.Recs = append(d.Recs, c20Rec{F: f})
+	}
+	y := 1760 + r.Intn(100)
+	m := mon31[r.Intn(len(mon31))]
+	// 1: parent with month precision, 2: child on the 16th; 3: mother on the 16th, 4: child with month precision
+	indi(1, "M", ev("BIRT", monthOf(y, m)))
+	indi(2, "F", ev("BIRT", day(y, m, 16)))
+	indi(3, "F", ev("BIRT", day(y, m, 16)))
+	indi(4, "M", ev("BIRT", monthOf(y, m)))
+	fam(1, 1, 3, []int{2, 4})
+	// leap February: the 15th against the month
+	ly := 1760 + 4*r.Intn(10)
+	indi(5, "M", ev("BIRT", gen(fmt.Sprintf("Feb %d", ly))))
+	indi(6, "F", ev("BIRT", day(ly, 2, 15)))
+	fam(2, 5, 0, []int{6})
+	// 2 Jul of a non-leap year against the year (both exact in float64: decided, not a tie to excuse)
+	ny := []int{1801, 1802, 1803, 1805, 1853, 1854, 1855, 1857}[r.Intn(8)]
+	indi(7, "M", ev("BIRT", day(ny, 7, 2)))
+	indi(8, "F", ev("BIRT", gen(strconv.Itoa(ny))))
+	indi(9, "M", ev("BIRT", gen(strconv.Itoa(ny))))
+	fam(3, 7, 0, []int{8})
+	fam(4, 9, 0, []int{7})
+	// two dates of one birth that tie (Minimum() may take either): too old and married young depend on it
+	indi(10, "M", ev("BIRT", day(y, m, 16), monthOf(y, m)), ev("DEAT", day(y+101, m, 20)))
+	indi(11, "F", ev("BIRT", monthOf(y, m), day(y, m, 16)), ev("DEAT", day(y+100, m, 10)))
+	fam(5, 10, 11, nil, ev("MARR", day(y+15, m, 20)), ev("MARR", monthOf(y+16, m), day(y+16, m, 16)))
+	// exactly 100 years between a month and the 16th of the same month (years of equal length)
+	cy := []int{1704, 1780, 1808, 1801, 1802}[r.Intn(5)]
+	indi(12, "F", ev("BIRT", gen(fmt.Sprintf("Dec %d", cy))), ev("DEAT", day(cy+100, 12, 16)))
+	indi(13, "M", ev("BIRT", day(cy, 12, 16)), ev("DEAT", gen(fmt.Sprintf("Dec %d", cy+100))))
+	if r.Bool() {
+		c20ShuffleRecs(r, d)
+	}
+	return d
+}
+
 func init() {
 	runners["C20"] = func(c *Ctx) {
+		c.Compare = c20Compare(c)
 		c.Rule = "family-graph documents (0..40 people, 0..n families, several families per person) with exact-day or unparsable dates, all in the past (births 1745-1895, everything before 2022, span < 290 years); relationships drawn a few days either side of every threshold plus the exact thresholds; large inversions (death, burial, baptism 100..290 years before the birth, marriage long before a spouse's birth on both sides of 16 and 100 x 365.25 days) alone in an otherwise clean document and combined with other faults; every document also in a shuffled order; distinct = (set of warning kinds reported, number of warnings)"
 		c.Notes = append(c.Notes,
 			"assumption: all dates are at least four years before time.Now(); today's date is an explicit input of the model",
@@ -1395,6 +1508,9 @@ func init() {
 			if k%10 == 9 {
 				b, bl := c20Boundary(c.R)
 				c20Run(c, b, bl, "boundary", true)
+			}
+			if k%10 == 4 {
+				c20Run(c, c20TieDoc(c.R), map[string]int{}, "years-tie", true)
 			}
 		}
 	}
